@@ -200,6 +200,15 @@ func checkC07(c C07Case) (labels []string, nontrivial bool, err error) {
 		out, rerr = canaryReadAll(r, c.Reads)
 	}
 	desc := fmt.Sprintf("%s container of %d bytes (%d member(s)), corrupted by %v", c.Pkg, len(good), len(c.Members), c.Mut)
+	if openErr == nil && rerr != nil && rerr != errLivelock {
+		// the outcome must stick: a later Read may not turn an error into a clean end (or vice versa)
+		buf := make([]byte, 8)
+		for i := 0; i < 3; i++ {
+			if n, e := r.Read(buf); n != 0 || e != rerr {
+				return nil, false, fmt.Errorf("%s: Reader ended with %q, but Read #%d after that returned (%d, %v)", desc, rerr, i+1, n, e)
+			}
+		}
+	}
 	if rerr == errLivelock {
 		return nil, false, fmt.Errorf("%s: %v", desc, rerr)
 	}
